@@ -98,7 +98,7 @@ Definition row_accounted (line : string) : bool :=
   let f := hd "" (tokens line) in
   (String.eqb f "-" || is_some (nat_of_digits f))%bool.
 
-Definition rq_eqb := res_eqb q_eqb.
+Notation rq_eqb := (res_eqb q_eqb).
 Definition cordero_row_ok (t : cov) (e : Z * Q * Q) : bool :=
   let '(z, r, u) := e in
   (rq_eqb (cov_radius EB t z) (Val r) && rq_eqb (cov_unc_raw EB t z) (Val u))%bool.
@@ -111,21 +111,21 @@ Definition pct_lhs (scale u : Q) : Q := Qabs (cov_unc_float scale u - u / 100).
 Definition pct_rhs (u : Q) : Q := u / 100 * (1 # 2 ^ 50).
 
 Lemma cordero_rows_c : on the_cov (fun t => forallb (cordero_row_ok t) cordero_numbered) = true.
-Proof. Time vm_compute. reflexivity. Time Qed.
+Proof. vm_compute. reflexivity. Qed.
 Lemma cordero_absent_c : on the_cov (fun t => forallb (cordero_absent_ok t) el_numbers) = true.
-Proof. Time vm_compute. reflexivity. Time Qed.
+Proof. vm_compute. reflexivity. Qed.
 Lemma cordero_groups_c : on the_cov (fun t => forallb (cordero_group_ok t) cordero_groups) = true.
-Proof. Time vm_compute. reflexivity. Time Qed.
+Proof. vm_compute. reflexivity. Qed.
 Lemma cordero_accounted_c : forallb row_accounted Cordero = true.
-Proof. Time vm_compute. reflexivity. Time Qed.
+Proof. vm_compute. reflexivity. Qed.
 Lemma cordero_percent_c : forallb (fun e => Qle_bool (pct_lhs unc_scale (snd e)) (pct_rhs (snd e))) cordero_numbered = true.
-Proof. Time vm_compute. reflexivity. Time Qed.
+Proof. vm_compute. reflexivity. Qed.
 Lemma cordero_has_alternates_c :
   existsb (fun g => match snd g with [] => false | _ => true end) cordero_groups = true.
-Proof. Time vm_compute. reflexivity. Time Qed.
+Proof. vm_compute. reflexivity. Qed.
 Lemma neutron_radius_c :
   on the_cov (fun t => rq_eqb (cov_radius EB t 0) (Val (cst cordero_neutron_radius_text))) = true.
-Proof. Time vm_compute. reflexivity. Time Qed.
+Proof. vm_compute. reflexivity. Qed.
 
 Theorem cordero_rows : forall t, the_cov = Some t -> forall z r u, In (z, r, u) cordero_numbered ->
   cov_radius EB t z = Val r /\ cov_unc_raw EB t z = Val u.
@@ -207,7 +207,7 @@ Definition crystal_slot (z : Z) : res (option cdict) :=
   match nth_error crystal_structures (Z.to_nat z) with Some s => Val s | None => Raise end.
 
 Lemma crystal_c : on the_crystal (fun t => forallb (fun z => rcry_eqb (crystal_of EB t z) (crystal_slot z)) el_numbers) = true.
-Proof. Time vm_compute. reflexivity. Time Qed.
+Proof. vm_compute. reflexivity. Qed.
 
 Theorem crystal_by_index : forall t, the_crystal = Some t -> forall z, In z el_numbers ->
   crystal_of EB t z = crystal_slot z.
@@ -235,9 +235,9 @@ Definition spectral_row_ok (t : amap (Q * Q)) (e : string * (Q * Q)) : bool :=
   end.
 
 Lemma spectral_el_c : on the_spectral (fun t => forallb (spectral_el_ok t) el_numbers) = true.
-Proof. Time vm_compute. reflexivity. Time Qed.
+Proof. vm_compute. reflexivity. Qed.
 Lemma spectral_row_c : on the_spectral (fun t => forallb (spectral_row_ok t) spectral_listed) = true.
-Proof. Time vm_compute. reflexivity. Time Qed.
+Proof. vm_compute. reflexivity. Qed.
 
 Theorem spectral_by_symbol : forall t, the_spectral = Some t -> forall z sym, In z el_numbers ->
   eb_symbol EB z = Some sym ->
@@ -255,6 +255,13 @@ Proof.
   specialize (H _ Hin). unfold spectral_row_ok in H. cbn [fst snd] in H.
   destruct (eb_number EB sym) as [z|]; [|discriminate H]. exists z. apply andb_prop in H. destruct H as [H1 H2].
   split; [reflexivity|]. split; apply (res_eqb_eq _ _ q_eqb_eq); assumption.
+Qed.
+
+Definition zz_eqb' (a b : Z * Z) : bool := (Z.eqb (fst a) (fst b) && Z.eqb (snd a) (snd b))%bool.
+Lemma zz_eqb'_eq : forall a b, zz_eqb' a b = true -> a = b.
+Proof.
+  intros [a1 a2] [b1 b2] H. unfold zz_eqb' in H. cbn [fst snd] in H. apply andb_prop in H. destruct H as [H1 H2].
+  apply Z.eqb_eq in H1. apply Z.eqb_eq in H2. subst. reflexivity.
 Qed.
 
 (* ================================================================== magnetic form factors *)
@@ -289,10 +296,10 @@ Definition cfml_entry (s : string * string * string) : mkey * list Q :=
 
 Definition mff_listed : list (mkey * list Q) := map cfml_entry (cfml_statements CFML_DATA).
 
-Definition olq_eqb := opt_eqb lq_eqb.
+Notation olq_eqb := (opt_eqb lq_eqb).
 Lemma mff_cont_c :
   on the_mff (fun t => forallb (fun kv => olq_eqb (assoc mkey_eqb mff_listed (fst kv)) (Some (snd kv))) (mff_flat t)) = true.
-Proof. Time vm_compute. reflexivity. Time Qed.
+Proof. vm_compute. reflexivity. Qed.
 Definition mget (t : mff) (k : mkey) : option (list Q) := mff_get t (fst (fst k)) (snd (fst k)) (snd k).
 Lemma mff_listed_c :
   on the_mff (fun t => forallb (fun kv => olq_eqb (mget t (fst kv)) (Some (snd kv))) mff_listed) = true.
@@ -314,7 +321,7 @@ Qed.
 Lemma mff_els_c :
   on the_mff (fun t => (forallb (fun zc => existsb (fun kv => Z.eqb (fst (fst (fst kv))) (fst zc)) mff_listed) t
                         && forallb (fun kv => is_some (mff_el t (fst (fst (fst kv))))) mff_listed)%bool) = true.
-Proof. Time vm_compute. reflexivity. Time Qed.
+Proof. vm_compute. reflexivity. Qed.
 
 Theorem magnetic_absent : forall t, the_mff = Some t -> forall z,
   mff_el t z = None <-> (forall c jn v, ~ In ((z, c, jn), v) mff_listed).
@@ -337,9 +344,9 @@ Definition j0_entry_ok (kv : mkey * list Q) : bool :=
 Definition seven_ok (kv : mkey * list Q) : bool := Nat.eqb (List.length (snd kv)) 7.
 
 Lemma j0_c : on the_mff (fun t => forallb j0_entry_ok (mff_flat t)) = true.
-Proof. Time vm_compute. reflexivity. Time Qed.
+Proof. vm_compute. reflexivity. Qed.
 Lemma seven_c : on the_mff (fun t => forallb seven_ok (mff_flat t)) = true.
-Proof. Time vm_compute. reflexivity. Time Qed.
+Proof. vm_compute. reflexivity. Qed.
 
 Theorem j0_at_zero : forall t, the_mff = Some t -> forall z c v, mff_get t z c "j0" = Some v ->
   995 # 1000 <= ff0_at_zero v /\ ff0_at_zero v <= 1005 # 1000.
@@ -364,6 +371,38 @@ Definition J_entry_ok (kv : mkey * list Q) : bool :=
   if String.eqb (snd (fst kv)) "J" then unit_ok (snd kv) else true.
 Definition J_outliers (t : mff) : list (mkey * Q) :=
   map (fun kv => (fst kv, ff0_at_zero (snd kv))) (filter (fun kv => negb (J_entry_ok kv)) (mff_flat t)).
+Definition J_known_outliers : list (Z * Z) := [(60, 2); (66, 3)]%Z.
+Definition J_partial_ok (kv : mkey * list Q) : bool :=
+  (J_entry_ok kv || existsb (zz_eqb' (fst (fst kv))) J_known_outliers)%bool.
+Lemma J_partial_c : on the_mff (fun t => forallb J_partial_ok (mff_flat t)) = true.
+Proof. vm_compute. reflexivity. Qed.
+Lemma J_witness_c :
+  on the_mff (fun t => match mff_get t 66 3 "J" with
+                       | Some v => Qeq_bool (ff0_at_zero v) (1131665 # 1000000)
+                       | None => false
+                       end) = true.
+Proof. vm_compute. reflexivity. Qed.
+
+Theorem J_at_zero_partial : forall t, the_mff = Some t -> forall z c v, mff_get t z c "J" = Some v ->
+  ~ In (z, c) J_known_outliers ->
+  995 # 1000 <= ff0_at_zero v /\ ff0_at_zero v <= 1005 # 1000.
+Proof.
+  intros t E z c v G Hno. pose proof (on_elim _ _ _ t J_partial_c E) as H. rewrite forallb_forall in H.
+  specialize (H _ (mff_get_in_flat _ _ _ _ _ G)). unfold J_partial_ok in H. cbn [fst snd] in H.
+  apply orb_prop in H. destruct H as [H|H].
+  - unfold J_entry_ok in H. cbn [fst snd] in H. rewrite String.eqb_refl in H.
+    unfold unit_ok in H. apply andb_prop in H. destruct H as [H1 H2].
+    split; apply Qle_bool_iff; assumption.
+  - exfalso. apply existsb_exists in H. destruct H as [x [Hin Hx]]. apply zz_eqb'_eq in Hx. subst x. exact (Hno Hin).
+Qed.
+
+Theorem J_at_zero_outlier : forall t, the_mff = Some t ->
+  exists v, mff_get t 66 3 "J" = Some v /\ ff0_at_zero v == 1131665 # 1000000.
+Proof.
+  intros t E. pose proof (on_elim _ _ _ t J_witness_c E) as H. cbv beta in H.
+  destruct (mff_get t 66 3 "J") as [v|]; [|discriminate H]. exists v. split; [reflexivity|].
+  apply Qeq_bool_iff. exact H.
+Qed.
 Close Scope Q_scope.
 
 (* ================================================================== Cromer-Mann *)
@@ -423,13 +462,13 @@ Definition zz_eqb : Z * Z -> Z * Z -> bool := pair_eqb Z.eqb Z.eqb.
 Lemma zz_eqb_eq : forall a b, zz_eqb a b = true -> a = b.
 Proof. apply pair_eqb_eq; exact Zeqb_eq'. Qed.
 
-Definition ocmf_eqb := opt_eqb cmf_eqb.
+Notation ocmf_eqb := (opt_eqb cmf_eqb).
 Lemma cm_cont_c :
   on the_cm (fun t => forallb (fun kv => ocmf_eqb (assoc String.eqb cm_listed (fst kv)) (Some (snd kv))) t) = true.
-Proof. Time vm_compute. reflexivity. Time Qed.
+Proof. vm_compute. reflexivity. Qed.
 Lemma cm_listed_c :
   on the_cm (fun t => forallb (fun kv => ocmf_eqb (cm_lookup t (fst kv)) (Some (snd kv))) cm_listed) = true.
-Proof. Time vm_compute. reflexivity. Time Qed.
+Proof. vm_compute. reflexivity. Qed.
 
 (* column order: the positional reader a1..a5 c b1..b5 serves, for every symbol, the values
    standing under the labels a1..a5, c, b1..b5 of its own #L line; unlisted symbols: KeyError *)
@@ -448,7 +487,7 @@ Qed.
 Lemma cm_species_c :
   on the_cm (fun t => forallb (fun z => forallb (fun c => ocmf_eqb (cm_of EB t z c) (assoc zz_eqb cm_species (z, c)))
                                                 (small_charges ++ el_ions z)) el_numbers) = true.
-Proof. Time vm_compute. reflexivity. Time Qed.
+Proof. vm_compute. reflexivity. Qed.
 
 (* which entry an element or ion is served: the row whose header carries its number and
    whose symbol carries its charge, or none *)
@@ -470,7 +509,7 @@ Definition cm_row_ok (r : Z * string * cmf) : bool :=
   (Qle_bool (Qabs (cm_at_zero f - electrons z sym)) (5 # 100)
    && Nat.eqb (List.length (cm_a f)) 5 && Nat.eqb (List.length (cm_b f)) 5)%bool.
 Lemma cm_rows_c : forallb cm_row_ok cm_file_rows = true.
-Proof. Time vm_compute. reflexivity. Time Qed.
+Proof. vm_compute. reflexivity. Qed.
 
 Theorem cm_electron_count : forall z sym f, In (z, sym, f) cm_file_rows ->
   Qabs (cm_at_zero f - electrons z sym) <= 5 # 100 /\ List.length (cm_a f) = 5%nat /\ List.length (cm_b f) = 5%nat.
